@@ -167,7 +167,7 @@ ax == V("$abs_0")
 ms == V("$max_0_select_1")
 z == V("z")
 DomsE == { <<Decl("x", "real", MInf, PInf), Decl("y", "real", Fin(-1, 1), Fin(1, 1)),
-             Decl("$abs_0", "real", Fin(-1, 1), Fin(1, 1)), Decl("$max_0_select_1", "bool", Fin(0, 1), Fin(1, 1)),
+             Decl("$abs_0", "real", Fin(-1, 1), Fin(1, 1)), Decl("$max_0_select_1", "bool", Fin(0, 1), Fin(1, 1)), Decl("$or_0", "bool", Fin(0, 1), Fin(1, 1)),
              Decl("u", "int", Fin(0, 1), Fin(3, 1)), Decl("z", "nnreal", Fin(0, 1), PInf),
              Decl("w", "real", MInf, Fin(2, 1))>> }
 ConsE == {NamedCon("a", Con(U("abs", y), "ge", Num(1, 2))),
@@ -175,6 +175,8 @@ ConsE == {NamedCon("a", Con(U("abs", y), "ge", Num(1, 2))),
           NamedCon("a__2", Con(y, "ge", Num(-1, 2))),
           NamedCon("b", Con(N2("max", y, ax), "ge", Num(0, 1))),
           NamedCon("b", Asrt(N2("or", ms, U("not", ms)))),
+          \* a reified disjunction next to a user variable that has the name of its auxiliary (and its kind)
+          Con(B("add", N2("or", ms, V("$or_0")), y), "le", Num(1, 1)),
           Con(U("abs", x), "ge", Num(1, 1)),
           Con(U("abs", B("add", x, z)), "ge", Num(1, 1)),
           Con(N2("max", x, y), "le", Num(1, 1)),
